@@ -256,6 +256,17 @@ func (ex *exec) knownPredicate(kf KnownFinding) (*Term, bool) {
 }
 
 func (ex *exec) assertion(c value, label string) {
+	if len(ex.h.Labels) > 0 {
+		ok := false
+		for _, p := range ex.h.Labels {
+			if strings.HasPrefix(label, p) {
+				ok = true
+			}
+		}
+		if !ok {
+			return
+		}
+	}
 	rec := AssertRec{Label: label, Trace: append([]int{}, ex.taken...), Harness: ex.h.Func}
 	var ct *Term
 	switch c := c.(type) {
